@@ -24,6 +24,7 @@ RULE = ("weak-reference census: every streaming tool (zip, zip strict, map, filt
         "one head per source for merge, lead + 1 per live child for tee); tee with lockstep, leading/lagging and "
         "early-closed children. cycle, sorted and the collection builders are excluded as documented. "
         "one evaluation = one stream run; non-trivial = every run (N >= 60); distinct = (tool, N, parameters)")
+RULE += (' Also: strict batches (window n, also when the stream ends off a batch boundary).')
 RULE += (' Also: chain.from_iterable over a long lazy stream of pages (closeable class iterators keeping their records; plain iterators); groupby without key / identity key read group by group; tee with a real lock where a started child is closed while its sibling holds the lock mid-fetch and that close is cancelled at each suspension point; all streams report len() == 0 (current backlog).')
 RULE += (' Also: sized, lazily produced synchronous datasets as sources of every streaming tool.')
 RULE += (' Also: every tee pattern also over a source without aclose.')
@@ -233,6 +234,8 @@ def _tools():
     T["accumulate_max"] = (1, 1, lambda S, n: A.accumulate(S[0], lambda a, b: b), "iter", {})
     T["batched5"] = (1, 5, lambda S, n: A.batched(S[0], 5), "iter", {})
     T["batched17"] = (1, 17, lambda S, n: A.batched(S[0], 17), "iter", {})
+    T["batched5_strict"] = (1, 5, lambda S, n: A.batched(S[0], 5, strict=True), "iter", {})
+    T["batched17_strict"] = (1, 17, lambda S, n: A.batched(S[0], 17, strict=True), "iter", {})
     T["chain"] = (2, 0, lambda S, n: A.chain(*S), "iter", {})
     T["chain_from_iterable"] = (2, 0, lambda S, n: A.chain.from_iterable(S), "iter", {})
     # a long lazy stream of inner iterables, each a closeable object that keeps its records / a plain iterator
@@ -497,10 +500,15 @@ def run_tool(case, stats):
                 census.sample("after item")
         else:
             it = build(streams, n)
-            async for item in it:
-                produced["n"] += 1
-                del item
-                census.sample(f"after output {produced['n']}")
+            try:
+                async for item in it:
+                    produced["n"] += 1
+                    del item
+                    census.sample(f"after output {produced['n']}")
+            except ValueError:
+                # (strict batches over a stream that does not end on a batch boundary: the end the tool promises)
+                if not name.endswith("_strict"):
+                    raise
 
     drive(main())
     return census, produced["n"]
